@@ -16,6 +16,7 @@ Source anchors (file: function ↦ model definition)
 * `ThermalProperties._run_c_thermal_properties` + `c/phonopy.c: phpy_get_thermal_properties`
   ↦ `cSum`, `cF / cS / cCv` (the three mode functions are the *generated* `ThermalC.get_*`)
 * `ThermalProperties.temperatures` setter ↦ `keepTemps`
+* `number_of_modes`, `number_of_integrated_modes` ↦ `numModes`, `numIntegrated`
 
 The per-mode C functions are not modelled by hand: they are `Gen/ThermalC.lean`.
 
@@ -108,6 +109,13 @@ def projSum {nq nb : Nat} (w : Fin nq → α) (fr : Fin nq → Fin nb → α) (e
   sumFin nq fun q => (sumFin nb fun ν => if cut < fr q ν then e2 q j ν * g (fr q ν) else 0) * w q
 
 def wsum {nq : Nat} (w : Fin nq → α) : α := sumFin nq w
+
+/-- `self._num_modes = frequencies.shape[1] * weights.sum()` (as a sum of the weight over all modes) -/
+def numModes {nq : Nat} (ns : Nat) (w : Fin nq → α) : α := sumFin nq fun q => sumFin ns fun _ => w q
+
+/-- `self._num_integrated_modes = np.sum(weights * (frequencies > cutoff).sum(axis=1))` -/
+def numIntegrated {nq nb : Nat} (w : Fin nq → α) (fr : Fin nq → Fin nb → α) (cut : α) : α :=
+  sumFin nq fun q => w q * sumFin nb fun j => if cut < fr q j then 1 else 0
 
 /-- which mode function a `run_*` method uses: `t > 0` ↦ the formula, otherwise the `T = 0` function -/
 def pick (t : α) (hot cold : α) : α := if 0 < t then hot else cold
